@@ -250,6 +250,57 @@ def backpressure_scenarios(tier):
                     yield {'backpressure': [hdr, nf, k, stalled]}
 
 
+def pipelined_scenarios(tier):
+    """M1 (carrying a descriptor) arrives in two writes, M2 (carrying another) is already queued behind it: the read that
+    completes M1 must stop at its end, or the kernel drops M2's descriptors."""
+    for pad in range(0, 8):                        # every length residue mod 8 of M1
+        for big in (0, 3000):                      # M1 shorter / longer than one 2048-byte read
+            for cut in ('early', 'late', 'mid'):
+                yield {'pipelined': [pad, big, cut]}
+
+
+def task_pipelined(scns):
+    out = []
+    n = 0
+    for scn in scns:
+        pad, big, cut = scn['pipelined']
+        try:
+            s_ = Session({'small': True})
+            c, cg = s_.slots['F'], s_.slots['G']
+
+            def mk(tok, body_extra):
+                ser = s_.bus.next_serial(c)
+                fields = [(R.F_PATH, (b'o', b'/f')), (R.F_INTERFACE, (b's', b'f.i')), (R.F_MEMBER, (b's', b'Take')), (R.F_DESTINATION, (b's', G_NAME)), (R.F_UNIX_FDS, (b'u', 1))]
+                return R.encode_message(R.Msg(R.MT_CALL, 1, ser, fields, [R.S(tok + 'x' * body_extra), R.H(0)]))
+            m1 = mk('P1', pad + big)
+            m2 = mk('P2', 3)
+            k = {'early': 20, 'late': len(m1) - 5, 'mid': len(m1) // 2}[cut]
+            s_.bus.h.cmd('SEND %d %s 0' % (c, m1[:k].hex()))
+            s_.bus.h.cmd('SEND %d %s' % (c, m1[k:].hex()))
+            s_.bus.h.cmd('SEND %d %s 1' % (c, m2.hex()))
+            got_fds, toks = [], []
+            for _ in range(30):
+                s_.bus.pump()
+                o = s_.bus.recvall()
+                if not o:
+                    break
+                for cc, rv in o.items():
+                    if cc == cg:
+                        got_fds += rv.fds
+                        toks += [m_.body[0][1][:2] for m_, _ in rv.msgs if m_.member == b'Take']
+            n += 1
+            want = [s_.fdid[0], s_.fdid[1]]
+            if toks != [b'P1', b'P2'] or got_fds != want:
+                out.append(Violation('fd-identity' if toks == [b'P1', b'P2'] else 'fd-message-not-delivered', 'pipelined',
+                                     'M1 (%d bytes, split %s) and M2 written back to back, one descriptor each: the recipient got messages %r with descriptors %r, expected both with %r; sender disconnected: %s' %
+                                     (len(m1), cut, toks, got_fds, want, s_.eof.get('F')), scn))
+            s_.close()
+        except HarnessDied as e:
+            out.append(crash_violation(e, scn))
+            worker_bus().h.close()
+    return {'viol': [v.to_json() for v in out[:4]], 'n': n}
+
+
 def task_backpressure(scns):
     """F sends k descriptor-carrying messages with a header of the given size to G, which either reads normally or
     does not read until all are written (so that the bus's writes to G are cut short, possibly inside a header)."""
@@ -318,9 +369,22 @@ def run(ctx):
     finally:
         pool.close()
     ctx.hit('backpressure-scenarios', nbp)
+    pscn = list(pipelined_scenarios(ctx.tier))
+    pool = Pool()
+    npl = 0
+    try:
+        for r in pool.imap(task_pipelined, [pscn[i:i + 3] for i in range(0, len(pscn), 3)]):
+            if '__crash__' in r:
+                ctx.add_violation(Violation('crash', r['__crash__'], r['stderr'], {'task': r['task']}))
+                continue
+            ctx.add_violations(r['viol'])
+            npl += r['n']
+    finally:
+        pool.close()
+    ctx.hit('pipelined-fd-scenarios', npl)
     ctx.coverage.update({
         'states': st['states'], 'transitions': st['transitions'], 'traces_validated_against_impl': st['transitions'],
-        'completed_depth': st['completed_depth'], 'fixpoint': st['fixpoint'], 'backpressure_scenarios': nbp,
+        'completed_depth': st['completed_depth'], 'fixpoint': st['fixpoint'], 'backpressure_scenarios': nbp, 'pipelined_fd_scenarios': npl,
         'bound': 'backpressure: 2, 3 (thorough also 5, 8) descriptor-carrying messages x path length {100, 40000, 150000} x {1,2} descriptors x recipient {reading, stalled until all are written}; sender F, negotiated peer G, non-negotiated peer P; announced x attached in {0..3}^2%s, 5 targets, first-write/split attachment, disconnects, pending_fd_timeout; max_message_unix_fds=2; BFS depth %d' %
                  (' (8 combinations)' if quick else '', depth),
     })
@@ -329,6 +393,9 @@ def run(ctx):
 
 
 def replay(case):
+    if 'pipelined' in case:
+        r = task_pipelined([case])
+        return [Violation.from_json(v) for v in r['viol']]
     if 'backpressure' in case:
         r = task_backpressure([case])
         return [Violation.from_json(v) for v in r['viol']]
